@@ -45,8 +45,9 @@ contract('message.PayloadDELETE.to_bytes', returns=Bytes, props=E,
                                    'data + enc_spis(self.spis, _i) == enc_DELETE(self)'])})
 
 contract('message.Message._payloads_to_bytes', params={'payloads': List(Rec('Payload'))}, returns=Bytes, props=E,
-         requires=['inv_chain(payloads)'],
-         call_reveal=['inv_payload(payloads[len(payloads) - 1])', 'enc_body(payloads[len(payloads) - 1])',
+         requires=['inv_chain(payloads)'], reveal=['inv_chain(payloads)'],
+         call_reveal=['inv_chain(payloads)', 'inv_payload(payloads[len(payloads) - 1])',
+                      'enc_body(payloads[len(payloads) - 1])',
                       'enc_chain(payloads, 1)'],
          ensures={'rfc': 'result == enc_chain(payloads, 0)'},
          loops={0: loop(invariant=['0 <= _i <= len(payloads)',
